@@ -1,0 +1,149 @@
+// Copyright 2018-present the CoreDHCP Authors. All rights reserved
+// This source code is licensed under the MIT license found in the
+// LICENSE file in the root directory of this source tree.
+
+//go:build verif
+
+package server
+
+// Verification hooks (build tag `verif` only). Nothing in this file is compiled
+// into a normal build. It adds:
+//   - a WriteTo method on the listener types that shadows the one promoted from
+//     the embedded PacketConn, so that the reply HandleMsg4/HandleMsg6 sends can
+//     be captured (payload, destination, control message) instead of written to
+//     a socket when a capture sink is registered for that listener;
+//   - constructors for listeners around a given handler chain, and Inject
+//     methods that feed one datagram through HandleMsg4/HandleMsg6 exactly like
+//     Serve does (buffer taken from the package's bufpool).
+
+import (
+	"net"
+	"sync"
+
+	"golang.org/x/net/ipv4"
+	"golang.org/x/net/ipv6"
+
+	"github.com/coredhcp/coredhcp/handler"
+)
+
+// VerifCapture is one datagram the server tried to send.
+type VerifCapture struct {
+	Payload []byte
+	Peer    net.Addr
+	HasCM   bool // a control message was passed
+	IfIndex int  // its interface index
+}
+
+// VerifSink receives captures; it is called on the handling goroutine.
+type VerifSink func(VerifCapture)
+
+var verifSinks sync.Map // *listener4 | *listener6 -> VerifSink
+
+func (l *listener4) WriteTo(b []byte, cm *ipv4.ControlMessage, dst net.Addr) (int, error) {
+	if s, ok := verifSinks.Load(l); ok {
+		c := VerifCapture{Payload: append([]byte(nil), b...), Peer: dst}
+		if cm != nil {
+			c.HasCM, c.IfIndex = true, cm.IfIndex
+		}
+		s.(VerifSink)(c)
+		return len(b), nil
+	}
+	return l.PacketConn.WriteTo(b, cm, dst)
+}
+
+func (l *listener6) WriteTo(b []byte, cm *ipv6.ControlMessage, dst net.Addr) (int, error) {
+	if s, ok := verifSinks.Load(l); ok {
+		c := VerifCapture{Payload: append([]byte(nil), b...), Peer: dst}
+		if cm != nil {
+			c.HasCM, c.IfIndex = true, cm.IfIndex
+		}
+		s.(VerifSink)(c)
+		return len(b), nil
+	}
+	return l.PacketConn.WriteTo(b, cm, dst)
+}
+
+// VerifListener4 is a DHCPv4 listener without a socket.
+type VerifListener4 struct{ l *listener4 }
+
+// VerifListener6 is a DHCPv6 listener without a socket.
+type VerifListener6 struct{ l *listener6 }
+
+// NewVerifListener4 builds a listener around handlers; ifi is the interface the
+// listener is bound to (zero value: unbound).
+func NewVerifListener4(handlers []handler.Handler4, ifi net.Interface, sink VerifSink) *VerifListener4 {
+	l := &listener4{Interface: ifi, handlers: handlers}
+	verifSinks.Store(l, sink)
+	return &VerifListener4{l: l}
+}
+
+// NewVerifListener6 is the DHCPv6 counterpart of NewVerifListener4.
+func NewVerifListener6(handlers []handler.Handler6, ifi net.Interface, sink VerifSink) *VerifListener6 {
+	l := &listener6{Interface: ifi, handlers: handlers}
+	verifSinks.Store(l, sink)
+	return &VerifListener6{l: l}
+}
+
+func verifBuf(data []byte) ([]byte, *byte) {
+	b := *bufpool.Get().(*[]byte)
+	b = b[:MaxDatagram]
+	n := copy(b, data)
+	return b[:n], &b[:1][0]
+}
+
+// Inject handles one datagram synchronously, the way Serve hands it to
+// HandleMsg4. rxIfIndex < 0 means "no control message". The returned pointer
+// identifies the pool buffer that carried the datagram.
+func (v *VerifListener4) Inject(data []byte, rxIfIndex int, peer *net.UDPAddr) *byte {
+	b, id := verifBuf(data)
+	var oob *ipv4.ControlMessage
+	if rxIfIndex >= 0 {
+		oob = &ipv4.ControlMessage{IfIndex: rxIfIndex}
+	}
+	v.l.HandleMsg4(b, oob, peer)
+	return id
+}
+
+// InjectAsync is Inject on a goroutine of its own, like Serve; done is called
+// when handling has returned.
+func (v *VerifListener4) InjectAsync(data []byte, rxIfIndex int, peer *net.UDPAddr, done func()) *byte {
+	b, id := verifBuf(data)
+	var oob *ipv4.ControlMessage
+	if rxIfIndex >= 0 {
+		oob = &ipv4.ControlMessage{IfIndex: rxIfIndex}
+	}
+	go func() {
+		v.l.HandleMsg4(b, oob, peer)
+		if done != nil {
+			done()
+		}
+	}()
+	return id
+}
+
+// Inject handles one DHCPv6 datagram synchronously.
+func (v *VerifListener6) Inject(data []byte, rxIfIndex int, peer *net.UDPAddr) *byte {
+	b, id := verifBuf(data)
+	var oob *ipv6.ControlMessage
+	if rxIfIndex >= 0 {
+		oob = &ipv6.ControlMessage{IfIndex: rxIfIndex}
+	}
+	v.l.HandleMsg6(b, oob, peer)
+	return id
+}
+
+// InjectAsync is Inject on a goroutine of its own.
+func (v *VerifListener6) InjectAsync(data []byte, rxIfIndex int, peer *net.UDPAddr, done func()) *byte {
+	b, id := verifBuf(data)
+	var oob *ipv6.ControlMessage
+	if rxIfIndex >= 0 {
+		oob = &ipv6.ControlMessage{IfIndex: rxIfIndex}
+	}
+	go func() {
+		v.l.HandleMsg6(b, oob, peer)
+		if done != nil {
+			done()
+		}
+	}()
+	return id
+}
